@@ -11,6 +11,9 @@ Line-protocol driver for the C14 models (model files only).  One JSON value per 
   ["kind", n]                 → ARG_KINDS[n] as the model's kind index, null when out of range
   ["tag", text|null]          → null (invalid) | [code…]          (parse_type_ignore_tag)
   ["cfg", source]             → [[line, text]…]                   (get_mypy_comments)
+  ["modign", [[line, tag|null]…], firstStmtLine|null, firstDecoratorLine|null]
+        → {"whole": bool, "err": [line, [codes]]|null, "ignores": [[line, [codes]]…], "invalid": [line…]}
+          (visit_Module's type_ignores + the module-level-ignore rule of translate_stmt_list / get_lineno)
   ["space", [codepoint…]]     → [bool…]                           (str.isspace as used by strip / \s)
   ["elide", name]             → bool                              (argument_elide_name)
   ["pos", line, col|null, endLine|null, endCol|null] → [line, col, endLine, endCol]   (Errors.report clamp)
@@ -64,6 +67,18 @@ def step (line : String) : String :=
         | some cs => Json.arr (cs.map outStr).toArray
       | "cfg" => Json.arr ((mypyComments (jChars (nth a 1))).map fun p =>
           Json.arr #[Json.num (p.1 : Int), outStr p.2]).toArray
+      | "modign" =>
+        let tags : List (Nat × Option (List Char)) := (jArr (nth a 1)).map fun e =>
+          let x := jArr e; (jNat (nth x 0), jOptChars (nth x 1))
+        let (ign, bad) := buildIgnores tags
+        let first : Option FirstStmt :=
+          if (nth a 2).isNull then none else some { line := jNat (nth a 2), firstDecoratorLine := jOptNat (nth a 3) }
+        let r := moduleIgnore ign first
+        let showIgn := fun (p : Nat × Codes) => Json.arr #[Json.num (p.1 : Int), Json.arr (p.2.map outStr).toArray]
+        Json.mkObj [("whole", Json.bool r.wholeModule),
+          ("err", match r.errCodes with | none => Json.null | some p => showIgn p),
+          ("ignores", Json.arr (r.ignores.map showIgn).toArray),
+          ("invalid", Json.arr (bad.map fun (l : Nat) => Json.num (l : Int)).toArray)]
       | "space" => Json.arr ((jArr (nth a 1)).map fun n => Json.bool (isSpace (Char.ofNat (jNat n)))).toArray
       | "elide" => Json.bool (elideName (jChars (nth a 1)))
       | "pos" =>
